@@ -205,11 +205,17 @@ inline bool expr_eval(int e, int s, const int t[3], bool tagged)
     default: return tagged || a;
     }
 }
+// a second record type with filters of the same instance numbers: its thresholds are its own
+using record2 = nl::record<nl::message_attribute, nl::severity_attribute>;
 inline void set_thresholds(const int t[3])
 {
     S0<record>::set_severity(static_cast<sev_t>(t[0]));
     S1<record>::set_severity(static_cast<sev_t>(t[1]));
     S2<record>::set_severity(static_cast<sev_t>(t[2]));
+    // configured afterwards, to the mirrored values: must not reach the filters of `record`
+    S0<record2>::set_severity(static_cast<sev_t>(5 - t[0]));
+    S1<record2>::set_severity(static_cast<sev_t>(5 - t[1]));
+    S2<record2>::set_severity(static_cast<sev_t>(5 - t[2]));
 }
 
 template <template <typename> class F>
@@ -247,8 +253,35 @@ enum
     I_NEST, // callable that itself logs (same logger, same severity) before returning its text
     I_NULL, // a null const char*: puts the statement's stream into a failed state (later insertions print nothing,
             // but callables streamed afterwards are still evaluated and the record is still emitted)
+    I_POLY, // an object of a derived class streamed through a reference to its base (the text comes from a virtual)
     I_KINDS
 };
+
+struct Shape
+{
+    virtual ~Shape() = default;
+    virtual void print(std::ostream& o) const
+    {
+        o << "shape";
+    }
+};
+struct Circle : Shape
+{
+    void print(std::ostream& o) const override
+    {
+        o << "circle(r=2)";
+    }
+};
+inline std::ostream& operator<<(std::ostream& o, const Shape& s)
+{
+    s.print(o);
+    return o;
+}
+inline const Shape& poly()
+{
+    static const Circle c;
+    return c;
+}
 
 struct CallA
 {
@@ -304,27 +337,32 @@ struct CallNest
     }
 };
 
-// form B: named stream, one `s << item;` statement per item
+// one `s << item;` statement on a named stream
 template <typename L, int SEV, typename Stream>
-void feed_named(Stream& s, const Stmt& st)
+void feed_one(Stream& s, const Stmt& st, size_t p)
 {
-    for (size_t p = 0; p < st.items.size(); p++)
+    int id = st.id * 10 + static_cast<int>(p);
+    switch (st.items[p])
     {
-        int id = st.id * 10 + static_cast<int>(p);
-        switch (st.items[p])
-        {
-        case I_LIT: s << "lit"; break;
-        case I_STR: s << std::string("str"); break;
-        case I_INT: s << 42; break;
-        case I_DBL: s << 2.5; break;
-        case I_CALLA: s << CallA{ id }; break;
-        case I_CALLB: s << CallB{ id }; break;
-        case I_MARK: s << Marker{ id }; break;
-        case I_HEX: s << std::hex; break;
-        case I_NULL: s << static_cast<const char*>(nullptr); break;
-        default: s << CallNest<L, SEV>{ id }; break;
-        }
+    case I_LIT: s << "lit"; break;
+    case I_STR: s << std::string("str"); break;
+    case I_INT: s << 42; break;
+    case I_DBL: s << 2.5; break;
+    case I_CALLA: s << CallA{ id }; break;
+    case I_CALLB: s << CallB{ id }; break;
+    case I_MARK: s << Marker{ id }; break;
+    case I_HEX: s << std::hex; break;
+    case I_NULL: s << static_cast<const char*>(nullptr); break;
+    case I_POLY: s << poly(); break;
+    default: s << CallNest<L, SEV>{ id }; break;
     }
+}
+// form B: named stream, one `s << item;` statement per item (from position `from` on)
+template <typename L, int SEV, typename Stream>
+void feed_named(Stream& s, const Stmt& st, size_t from = 0)
+{
+    for (size_t p = from; p < st.items.size(); p++)
+        feed_one<L, SEV>(s, st, p);
 }
 // form A: temporaries; every insertion consumes the previous temporary and yields a new one, exactly like
 // `L::sev(tag) << a << b << c;`
@@ -345,6 +383,7 @@ void feed_chain(Stream&& s, const Stmt& st, size_t p)
     case I_MARK: feed_chain<L, SEV>(std::move(s) << Marker{ id }, st, p + 1); break;
     case I_HEX: feed_chain<L, SEV>(std::move(s) << std::hex, st, p + 1); break;
     case I_NULL: feed_chain<L, SEV>(std::move(s) << static_cast<const char*>(nullptr), st, p + 1); break;
+    case I_POLY: feed_chain<L, SEV>(std::move(s) << poly(), st, p + 1); break;
     default: feed_chain<L, SEV>(std::move(s) << CallNest<L, SEV>{ id }, st, p + 1); break;
     }
 }
@@ -401,6 +440,34 @@ void run_stmt_sev(const Stmt& st)
                   "a statement below the compile-time minimum must have the null stream type, one at or above it must not");
     if (st.form == 'A')
         feed_chain<L, SEV>(make_stream<L, SEV>(st.tagged), st, 0);
+    else if (st.form == 'C' && !st.items.empty())
+    {
+        // a named stream bound by reference to the result of the first insertion:
+        //     auto&& s = L::sev(tag) << first;   s << second;   s << third;
+        // (the stream returned by the insertion is a temporary whose lifetime the reference extends)
+        int id = st.id * 10;
+#define VP_BOUND(ITEM)                                                                                                                    \
+    {                                                                                                                                     \
+        auto&& s = make_stream<L, SEV>(st.tagged) << ITEM;                                                                                \
+        feed_named<L, SEV>(s, st, 1);                                                                                                     \
+    }                                                                                                                                     \
+    break;
+        switch (st.items[0])
+        {
+        case I_LIT: VP_BOUND("lit")
+        case I_STR: VP_BOUND(std::string("str"))
+        case I_INT: VP_BOUND(42)
+        case I_DBL: VP_BOUND(2.5)
+        case I_CALLA: VP_BOUND(CallA{ id })
+        case I_CALLB: VP_BOUND(CallB{ id })
+        case I_MARK: VP_BOUND(Marker{ id })
+        case I_HEX: VP_BOUND(std::hex)
+        case I_NULL: VP_BOUND(static_cast<const char*>(nullptr))
+        case I_POLY: VP_BOUND(poly())
+        default: VP_BOUND((CallNest<L, SEV>{ id }))
+        }
+#undef VP_BOUND
+    }
     else if (st.tagged)
     {
         auto s = make_stream_buf<L, SEV>();
@@ -460,41 +527,32 @@ void overlapping(const Stmt& a, const Stmt& b)
     for (size_t p = 0; p < n; p++)
     {
         if (p < a.items.size())
-        {
-            int id = a.id * 10 + static_cast<int>(p);
-            switch (a.items[p])
-            {
-            case I_LIT: s1 << "lit"; break;
-            case I_STR: s1 << std::string("str"); break;
-            case I_INT: s1 << 42; break;
-            case I_DBL: s1 << 2.5; break;
-            case I_CALLA: s1 << CallA{ id }; break;
-            case I_CALLB: s1 << CallB{ id }; break;
-            case I_MARK: s1 << Marker{ id }; break;
-            case I_HEX: s1 << std::hex; break;
-            case I_NULL: s1 << static_cast<const char*>(nullptr); break;
-            default: s1 << CallNest<L, SEV>{ id }; break;
-            }
-        }
+            feed_one<L, SEV>(s1, a, p);
         if (p < b.items.size())
-        {
-            int id = b.id * 10 + static_cast<int>(p);
-            switch (b.items[p])
-            {
-            case I_LIT: s2 << "lit"; break;
-            case I_STR: s2 << std::string("str"); break;
-            case I_INT: s2 << 42; break;
-            case I_DBL: s2 << 2.5; break;
-            case I_CALLA: s2 << CallA{ id }; break;
-            case I_CALLB: s2 << CallB{ id }; break;
-            case I_MARK: s2 << Marker{ id }; break;
-            case I_HEX: s2 << std::hex; break;
-            case I_NULL: s2 << static_cast<const char*>(nullptr); break;
-            default: s2 << CallNest<L, SEV>{ id }; break;
-            }
-        }
+            feed_one<L, SEV>(s2, b, p);
     }
     // s2 is destroyed first, then s1
+}
+template <typename L, int SEV>
+void run_stmt_sev(const Stmt& st);
+// two named streams whose lifetimes are NOT nested (e.g. one open record per request kept in a map): a is opened, b is
+// opened, a is completed and closed while b is half filled, a whole statement z is issued, b is completed and closed
+template <typename L, int SEV>
+void non_nested(const Stmt& a, const Stmt& b, const Stmt& z)
+{
+    using S = decltype(make_stream<L, SEV>(false));
+    std::unique_ptr<S> s1(new S(make_stream<L, SEV>(a.tagged)));
+    std::unique_ptr<S> s2(new S(make_stream<L, SEV>(b.tagged)));
+    for (size_t p = 0; p < a.items.size(); p++)
+        feed_one<L, SEV>(*s1, a, p);
+    size_t half = (b.items.size() + 1) / 2;
+    for (size_t p = 0; p < half; p++)
+        feed_one<L, SEV>(*s2, b, p);
+    s1.reset();
+    run_stmt_sev<L, SEV>(z);
+    for (size_t p = half; p < b.items.size(); p++)
+        feed_one<L, SEV>(*s2, b, p);
+    s2.reset();
 }
 
 // ---------------------------------------------------------------------------------------------
@@ -532,6 +590,7 @@ inline void ref_items(int e, const int t[3], const Stmt& st, std::vector<Event>&
             break;
         case I_HEX: o << std::hex; break;
         case I_NULL: o << static_cast<const char*>(nullptr); break;
+        case I_POLY: o << "circle(r=2)"; break;
         default:
         {
             ev.push_back(Event{ 'C', id });
@@ -674,6 +733,7 @@ struct Case
     int mode = 0; // 0 sequential statements, 1 two overlapping named streams (prog[0], prog[1], same severity),
                   // 2 thresholds change to t2 between prog[0] and prog[1],
                   // 3 the statements run from a destructor while an exception is propagating (stack unwinding)
+                  // 4 two named streams with non-nested lifetimes and a whole statement in between (prog[0..2])
     int t2[3] = { 0, 0, 0 };
     std::string json() const
     {
@@ -716,12 +776,28 @@ struct Case
     }
     std::string cls() const
     {
-        std::string s = std::string("min") + std::to_string(VP_MIN) + " " + expr_name(expr) + (mode == 1 ? " overlapping" : mode == 2 ? " threshold-change" : mode == 3 ? " during-unwinding" : "");
+        std::string s = std::string("min") + std::to_string(VP_MIN) + " " + expr_name(expr) + (mode == 1 ? " overlapping" : mode == 2 ? " threshold-change" : mode == 3 ? " during-unwinding" : mode == 4 ? " non-nested-streams" : "");
         for (auto& st : prog)
             s += " " + st.str();
         return s;
     }
 };
+
+template <int SEV>
+void run_nonnested_expr(int e, const Stmt& a, const Stmt& b, const Stmt& z)
+{
+    switch (e)
+    {
+    case 0: non_nested<Logger<E0>, SEV>(a, b, z); break;
+    case 14: non_nested<Logger<E14>, SEV>(a, b, z); break;
+    default: non_nested<Logger<E12>, SEV>(a, b, z); break;
+    }
+}
+// events caused by streaming one item
+inline size_t item_event_count(int k)
+{
+    return (k == I_CALLA || k == I_CALLB || k == I_MARK) ? 1 : (k == I_NEST ? 5 : 0);
+}
 
 template <int SEV>
 void run_overlap_expr(int e, const Stmt& a, const Stmt& b)
@@ -767,6 +843,42 @@ inline std::vector<Finding> run_case(const Case& c)
         {
         }
         want = ref_program(c.expr, c.t, c.prog);
+    }
+    else if (c.mode == 4)
+    {
+        const Stmt &a = c.prog[0], &b = c.prog[1], &z = c.prog[2];
+        switch (a.sev)
+        {
+        case 0: run_nonnested_expr<0>(c.expr, a, b, z); break;
+        case 1: run_nonnested_expr<1>(c.expr, a, b, z); break;
+        case 2: run_nonnested_expr<2>(c.expr, a, b, z); break;
+        case 3: run_nonnested_expr<3>(c.expr, a, b, z); break;
+        case 4: run_nonnested_expr<4>(c.expr, a, b, z); break;
+        default: run_nonnested_expr<5>(c.expr, a, b, z); break;
+        }
+        // reference: a's items, the first half of b's items, record a, statement z, the rest of b's items, record b
+        bool ea = enabled(c.expr, c.t, a.sev, a.tagged), eb = enabled(c.expr, c.t, b.sev, b.tagged);
+        std::vector<Event> eva, evb;
+        std::string ma, mb;
+        if (ea)
+            ref_items(c.expr, c.t, a, eva, ma);
+        if (eb)
+            ref_items(c.expr, c.t, b, evb, mb);
+        want = eva;
+        size_t half = (b.items.size() + 1) / 2, nb = 0;
+        for (size_t p = 0; p < half; p++)
+            nb += item_event_count(b.items[p]);
+        if (eb)
+            want.insert(want.end(), evb.begin(), evb.begin() + std::min(nb, evb.size()));
+        if (ea)
+            ref_emit(a, ma, want);
+        auto wz = ref_program(c.expr, c.t, { z });
+        want.insert(want.end(), wz.begin(), wz.end());
+        if (eb)
+        {
+            want.insert(want.end(), evb.begin() + std::min(nb, evb.size()), evb.end());
+            ref_emit(b, mb, want);
+        }
     }
     else if (c.mode == 2)
     {
